@@ -101,12 +101,118 @@ class SimParallel(object):
         return results
 
 
+class ModuleState(object):
+    """What a freshly started worker interpreter does NOT share with the
+    coordinator: the library's module-level variables and the mutable default
+    arguments of its functions.  `pristine` is captured right after import,
+    before any library call.  A simulated process worker runs its task with the
+    pristine copy swapped in (whatever the coordinator stored in a module
+    global or a default-argument memo is invisible to it) and whatever it
+    stores there is thrown away afterwards.  Not covered: closures, lru_cache
+    wrappers and class attributes (a reused real worker keeps those too)."""
+
+    SIMPLE = (dict, list, set, int, float, str, bool, type(None), tuple,
+              frozenset)
+
+    def __init__(self):
+        self.mods = []
+        self.pristine = None
+
+    def capture(self):
+        import sys
+        import types
+        self.mods = [m for n, m in sorted(sys.modules.items())
+                     if n.startswith('py_stringsimjoin') and m is not None]
+        self.pristine = self._snapshot()
+
+    def _snapshot(self):
+        import copy
+        import types
+        g, d = [], []
+        for m in self.mods:
+            for k, v in list(vars(m).items()):
+                if k.startswith('__'):
+                    continue
+                if isinstance(v, self.SIMPLE):
+                    try:
+                        g.append((m, k, copy.deepcopy(v)))
+                    except Exception:   # noqa
+                        pass
+                elif isinstance(v, types.FunctionType) and \
+                        v.__module__ == m.__name__ and v.__defaults__:
+                    if any(isinstance(x, (dict, list, set))
+                           for x in v.__defaults__):
+                        try:
+                            d.append((v, copy.deepcopy(v.__defaults__)))
+                        except Exception:   # noqa
+                            pass
+        return g, d
+
+    def _install(self, snap):
+        import copy
+        g, d = snap
+        for m, k, v in g:
+            setattr(m, k, copy.deepcopy(v))
+        for f, dv in d:
+            f.__defaults__ = copy.deepcopy(dv)
+
+    def enter_worker(self):
+        if self.pristine is None:
+            return None
+        cur = self._snapshot_refs()
+        self._install(self.pristine)
+        return cur
+
+    def _snapshot_refs(self):
+        import types
+        g, d = [], []
+        for m in self.mods:
+            for k, v in list(vars(m).items()):
+                if k.startswith('__'):
+                    continue
+                if isinstance(v, self.SIMPLE):
+                    g.append((m, k, v))
+                elif isinstance(v, types.FunctionType) and \
+                        v.__module__ == m.__name__ and v.__defaults__ and \
+                        any(isinstance(x, (dict, list, set))
+                            for x in v.__defaults__):
+                    d.append((v, v.__defaults__))
+        return g, d
+
+    def leave_worker(self, cur):
+        if cur is None:
+            return
+        g, d = cur
+        # drop names the worker created, then put the coordinator's objects
+        # (the very same objects, not copies) back
+        keep = set((id(m), k) for m, k, _ in g)
+        for m in self.mods:
+            for k, v in list(vars(m).items()):
+                if not k.startswith('__') and isinstance(v, self.SIMPLE) and \
+                        (id(m), k) not in keep:
+                    try:
+                        delattr(m, k)
+                    except Exception:   # noqa
+                        pass
+        for m, k, v in g:
+            setattr(m, k, v)
+        for f, dv in d:
+            f.__defaults__ = dv
+
+
+MODSTATE = ModuleState()
+
+
 def _call(task, mode):
     f, args, kwargs = task
     if mode == 'process':
         f, args, kwargs = pickle.loads(pickle.dumps((f, args, kwargs),
                                                     pickle.HIGHEST_PROTOCOL))
-        r = f(*args, **kwargs)
+        cur = MODSTATE.enter_worker()
+        try:
+            r = f(*args, **kwargs)
+        finally:
+            MODSTATE.leave_worker(cur)
         return pickle.loads(pickle.dumps(r, pickle.HIGHEST_PROTOCOL))
     return f(*args, **kwargs)
 
